@@ -56,6 +56,10 @@ class _NoSelector:
         pass
 
 
+class Livelock(RuntimeError):
+    """The loop never becomes idle although virtual time stands still."""
+
+
 class VLoop(base_events.BaseEventLoop):
     """Virtual time event loop (see module docstring)."""
 
@@ -103,7 +107,7 @@ class VLoop(base_events.BaseEventLoop):
             h._scheduled = False
         return bool(sched) and sched[0]._when < self._vtime + self._clock_resolution
 
-    def settle(self, max_iter: int = 100000) -> None:
+    def settle(self, max_iter: int = 30000) -> None:
         """Run everything that is runnable at the current instant."""
         n = 0
         while self._has_due():
@@ -111,7 +115,7 @@ class VLoop(base_events.BaseEventLoop):
             self.run_forever()
             n += 1
             if n > max_iter:
-                raise RuntimeError("settle(): livelock at t=%r" % self._vtime)
+                raise Livelock("settle(): livelock at t=%r (still busy after %d loop iterations in one instant)" % (self._vtime, n))
 
     def advance(self, dt: float) -> None:
         """Advance virtual time by dt (>= 0) and settle."""
